@@ -18,6 +18,9 @@ import (
 type c12Case struct {
 	Prog  string `json:"prog"`
 	Entry string `json:"entry"` // render | renderfile | renderstring | renderbyte | renderreader
+	// Stride > 0: for outputs longer than 4096 bytes only the first and last 512 offsets and every
+	// Stride-th offset in between are used (quick tier, the two large programs)
+	Stride int `json:"stride,omitempty"`
 }
 
 func (c *c12Case) Key() string { return core.KeyOf(c) }
@@ -135,7 +138,12 @@ func (c *c12Case) Run(ctx *core.Ctx) {
 	}
 	n := ref.Len()
 	shared := catEngine() // one long-lived engine sees every faulty call and the healthy call after it
+	offsets := 0
 	for k := 0; k < n; k++ {
+		if c.Stride > 0 && n > 4096 && k >= 512 && k < n-512 && k%c.Stride != 0 {
+			continue
+		}
+		offsets++
 		for _, short := range []bool{false, true} {
 			fw := &failWriter{limit: k, short: short}
 			ctx.Eval(2)
@@ -164,7 +172,10 @@ func (c *c12Case) Run(ctx *core.Ctx) {
 			}
 		}
 	}
-	ctx.Count("fault-offsets", n)
+	ctx.Count("fault-offsets", offsets)
+	if offsets < n {
+		ctx.Count("fault-offsets-skipped-by-stride", n-offsets)
+	}
 }
 
 func failClass(p *Program) string {
@@ -180,13 +191,17 @@ func init() {
 		Level: "fault_enumeration",
 		Rule: "every catalogue program (25 succeeding, 6 failing early/late/in include/in layout) x entry point {Load+Render, RenderFile, RenderString, RenderByte, RenderReader} x fault {none, cancelled context, writer failing at EVERY byte offset 0..len(output)-1 in two styles: refusing the write, short write + error}. " +
 			"oracle: healthy writer: error => 0 bytes received, nil => exactly the reference bytes; failing writer: non-nil error, the bytes it accepted are a prefix of the reference, and the next healthy render on the same long-lived engine returns exactly the reference bytes; cancelled context: error and 0 bytes. non-trivial = all; distinct = (program, entry point)",
-		Bounds:      map[string]string{"quick": "all offsets of all programs", "thorough": "same"},
+		Bounds:      map[string]string{"quick": "all offsets of all programs; for the two programs with more than 4096 bytes of output the first and last 512 offsets and every 97th in between", "thorough": "all offsets of all programs"},
 		Assumptions: []string{"writers that return n < len(p) with a nil error are out of scope"},
 		Decode:      core.DecodeAs[c12Case](),
 		Enumerate: func(tier string, emit func(core.Case)) {
 			for _, p := range Catalog {
 				for _, e := range []string{"render", "renderfile", "renderstring", "renderbyte", "renderreader"} {
-					emit(&c12Case{Prog: p.Name, Entry: e})
+					stride := 0
+					if tier != "thorough" {
+						stride = 97
+					}
+					emit(&c12Case{Prog: p.Name, Entry: e, Stride: stride})
 				}
 			}
 		},
